@@ -31,6 +31,10 @@ def run_e1(prop, tier, driver, plan, nops, rule, assumptions, design_ref, extra_
         os.environ["VERIF_TSAN_SUPP"] = sf
     else:
         os.environ.pop("VERIF_TSAN_SUPP", None)
+    # findings a driver can carry on after are passed as --tolerate (the driver counts them as probes tolerated_<key>)
+    tol = sorted(k for k, e in known0.items() if not e.get("tsan_suppression") and not k.startswith("race"))
+    tol_args = ["--tolerate", ",".join(tol)] if tol else []
+    tolerated_met = {}
     supp_hits = {}
     stages = []
     all_fails = []
@@ -44,10 +48,13 @@ def run_e1(prop, tier, driver, plan, nops, rule, assumptions, design_ref, extra_
         st = dict(st, runs=max(1, int(st["runs"] * scale)))
         # disjoint seed ranges per stage; VERIF_SEED shifts the whole exploration
         seed0 = seed * 1000003 * 1000 + si * 100000007
-        shards = C.shard_runs(bins[v], st["runs"], seed0, list(st.get("args", [])) + ["--hashfile", os.path.join(wd, "hashes_%d_" % si)], wd,
+        shards = C.shard_runs(bins[v], st["runs"], seed0, list(st.get("args", [])) + tol_args + ["--hashfile", os.path.join(wd, "hashes_%d_" % si)], wd,
                               st.get("timeout", 600))
         # (the driver appends its first seed to the hashfile name, so every shard writes its own file)
         tot = C.merge_summaries(shards)
+        for pk, pv in (tot.get("probes") or {}).items():
+            if pk.startswith("tolerated_") and pv:
+                tolerated_met[pk[len("tolerated_"):]] = tolerated_met.get(pk[len("tolerated_"):], 0) + int(pv)
         st_wall = max((s["wall"] for s in shards), default=0.0)
         nfail = 0
         for sh in shards:
@@ -123,6 +130,9 @@ def run_e1(prop, tier, driver, plan, nops, rule, assumptions, design_ref, extra_
         out_lines.append("  class=%s seed=%d variant=%s scenario=[%s] msg=%s" % (rec["class"], rec["seed"], rec["variant"], rec.get("scenario"), rec.get("msg")))
         violations += 1
 
+    for tk, tv in tolerated_met.items():
+        if tk in known:
+            met[known[tk]["key"]] = met.get(known[tk]["key"], 0) + tv
     for key, e in sorted(known.items()):
         n = met.get(key, 0) + (supp_hits.get(e.get("tsan_suppression"), 0) if e.get("tsan_suppression") else 0)
         out_lines.insert(0, "KNOWN-FINDING: property=%s %s [key %s; met %d time(s) in this run]" % (prop, e.get("what", key), key, n))
